@@ -21,6 +21,7 @@ abbrev Hid := Nat
 
 inductive Op where
   | add | remove (h : Hid) | removeAll | log (m : Nat)
+  | other      -- level()/enable()/disable()/configure(): take the core lock, may read the registry
   deriving DecidableEq, Repr
 
 inductive Lab where
@@ -38,6 +39,8 @@ inductive Pc where
   -- add(): `with lock: id = count; count += 1` … `with lock: handlers = handlers.copy(); …; publish`
   | a0 | a1 | a2 (n : Nat) | a3 (n : Nat) | a4 (n : Nat) | a5 (n : Nat) | a6 (n : Nat)
   | a7 (n : Nat) (ids : List Hid) | a8 (n : Nat)
+  -- level()/enable()/disable(): o0 before the lock, o1 locked
+  | o0 | o1
   -- remove(): r0 before the lock, r1 locked, rL loop head with the ids still to remove
   | r0 (tgt : Option Hid) | r1 (tgt : Option Hid) | rErr | rL (todo : List Hid)
   | rC (h : Hid) (todo : List Hid) (snap : List Hid)     -- copied the registry
@@ -87,6 +90,11 @@ def step (s : St) (t : Tid) (lab : Lab) : Option St :=
   | .idle, .start (.remove h) => some (setPc s t (.r0 (some h)))
   | .idle, .start .removeAll => some (setPc s t (.r0 none))
   | .idle, .start (.log m) => some (setPc s t (.l0 m))
+  | .idle, .start .other => some (setPc s t .o0)
+  -- ---------------------------------------------------------------- level / enable / disable
+  | .o0, .acqCore => if s.coreLock = none then some { setPc s t .o1 with coreLock := some t } else none
+  | .o1, .rReg ids => if ids = s.reg then some (setPc s t .o1) else none
+  | .o1, .relCore => some { setPc s t .idle with coreLock := none }
   -- ---------------------------------------------------------------- add
   | .a0, .acqCore => if s.coreLock = none then some { setPc s t .a1 with coreLock := some t } else none
   | .a1, .rCount n => if n = s.count then some (setPc s t (.a2 n)) else none
@@ -160,7 +168,7 @@ def run (s : St) : List (Tid × Lab) → St
 
 /-- a thread is *blocked* when it is waiting for a lock somebody holds -/
 def waitsCore : Pc → Bool
-  | .a0 | .a5 _ | .r0 _ => true
+  | .a0 | .a5 _ | .r0 _ | .o0 => true
   | _ => false
 
 def waitsH : Pc → Option Hid
